@@ -92,7 +92,7 @@ def model_jobs(quick):
 
 
 # ------------------------------------------------------------------------------------------ (G)
-ROOT_GROUPS = [{"CMP"}, {"OR", "AND", "NOT"}, {"ADD", "SUB", "MUL"}, {"DIV", "POW", "NEG", "PAREN", "ATOM"}]
+ROOT_GROUPS = [{"CMP"}, {"OR", "NOT"}, {"AND", "ADD", "SUB"}, {"MUL", "DIV", "POW", "NEG", "PAREN", "ATOM"}]
 
 
 def emit_shapes(ck, n, seed, tag, roots=None):
@@ -440,20 +440,27 @@ def run(tier):
             nshape = nwalk = 0
             q = queue.Queue(maxsize=2)
 
-            def produce():
+            def produce(kind):
                 try:
-                    for j, kinds in enumerate(ROOT_GROUPS):
-                        q.put(("shapes", "a%d" % j, emit_shapes(ck, 4, seed, "c10_shapes_%d" % j, roots=kinds)))
-                    for j in range(3):
-                        q.put(("walks", "w%d" % j, emit_walks(ck, 100000, seed * 100 + j + 1, "c10_walks_%d" % j)))
+                    if kind == "shapes":
+                        for j, kinds in enumerate(ROOT_GROUPS):
+                            q.put(("shapes", "a%d" % j, emit_shapes(ck, 4, seed, "c10_shapes_%d" % j, roots=kinds)))
+                    else:
+                        for j in range(5):
+                            q.put(("walks", "w%d" % j, emit_walks(ck, 100000, seed * 100 + j + 1, "c10_walks_%d" % j)))
                     q.put(None)
                 except BaseException as ex:  # noqa: BLE001
                     q.put(ex)
-            threading.Thread(target=produce, daemon=True).start()
+            for kind in ("shapes", "walks"):
+                threading.Thread(target=produce, args=(kind,), daemon=True).start()
+            open_producers = 2
             while True:
                 item = q.get()
                 if item is None:
-                    break
+                    open_producers -= 1
+                    if open_producers == 0:
+                        break
+                    continue
                 if isinstance(item, BaseException):
                     raise item
                 origin, part, trees = item
